@@ -601,3 +601,68 @@ def r4_relaxation(ctx):
 
 
 RULES += [r4_relaxation]
+
+
+def r5_meet_bounds_closure(ctx):
+    ctx.rule("C12.r5", "zones (split_dbm) meet: whenever the syntactic meet is not closed, the variable bounds are recovered by closing "
+             "from vertex 0 (close_after_assign(g, pi, 0, delta) + apply_delta) on EVERY path and for every parameter setting - "
+             "pushing bounds only along the edges the closure has just added misses a bound of one operand combined with an edge "
+             "of the other ({a<=5} & {b-a<=0} must entail b<=5)", floor=2)
+    SD = "include/crab/domains/split_dbm.hpp"
+    n = 0
+    for fn in ctx.db.fns(SD):
+        if fn["name"] not in ("operator&", "operator&=") or not (fn.get("cpk") or "").endswith("split_dbm_domain"):
+            continue
+        # the meet is implemented in a lambda
+        for lam in [x for x in walk(fn["body"]) if x.get("k") == "lambda"]:
+            lb = lam.get("b")
+            closes = [c for c in walk(lb) if is_call(c, name=("close_after_meet", "close_johnson"))]
+            if not closes:
+                continue
+            n += 1
+
+            def gen(x):
+                if is_call(x, name="close_after_assign") and len(x.get("a", [])) >= 3:
+                    v = strip(x["a"][2])
+                    if isinstance(v, dict) and v.get("k") == "lit" and v.get("v") == "0":
+                        return ("bounds-closed",)
+                return ()
+            try:
+                fl = paths.MustEvents(gen)
+                fl.run(lb)
+            except paths.Unstructured:
+                ctx.skipped("C12.r5|%s" % fn["name"], rid="C12.r5")
+                continue
+            # state at the end of the `if (!is_closed)` block that contains the closure
+            blk = None
+            for x, ps in walk_with_parents(lb):
+                if x is closes[0]:
+                    ifs = [p for p in ps if p.get("k") == "if"]
+                    blk = ifs[-1] if ifs else None
+                    # the outermost `if (!is_closed)`
+                    for p in ifs:
+                        if any(y.get("k") == "ref" and "closed" in (y.get("n") or "") for y in walk(p.get("c"))):
+                            blk = p
+                            break
+            ok = False
+            if blk is not None:
+                inner = paths.MustEvents(gen)
+                inner._brk, inner._cont, inner._gotos, inner._labels_seen = [[]], [[]], {}, set()
+                end = inner.stmt(blk.get("t"), frozenset())
+                ok = end is not None and "bounds-closed" in end
+            if ok:
+                ctx.ok("%s: bounds closed from vertex 0 on every path of the non-closed case" % fn["name"], fn, closes[0])
+            else:
+                ctx.bad("split_dbm_domain::%s does not close the bounds from vertex 0 on every path after the closure of the meet (a "
+                        "parameter-dependent shortcut pushes bounds only along the new edges): {a<=5} & {b-a<=0} does not entail b<=5" %
+                        fn["name"], fn, closes[0], sig="meet-bounds-not-closed:%s" % fn["name"])
+    if n == 0:
+        ctx.fail("rule C12.r5: split_dbm meet closure not found")
+
+
+def r6_oct_twin_lookups(ctx):
+    from . import C04
+    C04.r10_oct_twin_lookups(ctx, rid="C12.r6")
+
+
+RULES += [r5_meet_bounds_closure, r6_oct_twin_lookups]
